@@ -543,6 +543,22 @@ export class TypeGen {
           [1, () => A.ref("X")],
           [f.recursion ? 2 : 0, () => A.obj([A.prop("item", A.ref("X")), A.prop("next", A.ref(name, params.map((p) => A.ref(p))), true)])],
           [1, () => A.tuple([A.ref("X"), A.ref(two ? "Y" : "X")])],
+          // a generic instantiated inside another one whose parameter has the same name, with an
+          // argument that differs from the outer parameter
+          [
+            this.decls.some((d) => d.params && d.params.length === 1 && (d.d === "alias" || d.d === "iface")) ? 3 : 0,
+            () => {
+              const inner = r.pick(this.decls.filter((d) => d.params && d.params.length === 1 && (d.d === "alias" || d.d === "iface")));
+              const arg = r.wpick([
+                [3, () => A.arr(A.ref("X"))],
+                [2, () => A.obj([A.prop("x", A.ref("X"))])],
+                [2, () => A.union([A.ref("X"), A.kw("null")])],
+                [1, () => A.kw(r.pick(["string", "number", "boolean"]))],
+                [1, () => A.tuple([A.ref("X"), A.ref("X")])],
+              ])();
+              return A.obj([A.prop("label", A.ref("X")), A.prop("inner", A.ref(inner.name, [arg]), r.chance(0.3))]);
+            },
+          ],
         ])();
         if (r.chance(0.4) && body.k === "obj") return tryAdd({ d: "iface", name, params, ext: [], props: body.props, index: null, doc });
         return tryAdd({ d: "alias", name, params, t: body, doc });
